@@ -17,7 +17,34 @@ import (
 
 func TestMain(m *testing.M) { vk.Main(m, "C16") }
 
+// BigKeys describes a very large strictly ascending key set compactly: key i is the 4-byte
+// big-endian value of i*Stride followed by a tail chosen by i (none, one NUL, or a longer
+// suffix), so that keys differ in length and the first differences vary. Expansion is a pure
+// function of the spec.
+type BigKeys struct {
+	N      int `json:"n"`
+	Stride int `json:"stride"`
+}
+
+func (b BigKeys) expand() []string {
+	keys := make([]string, b.N)
+	for i := range keys {
+		v := uint32(i * b.Stride)
+		k := []byte{byte(v >> 24), byte(v >> 16), byte(v >> 8), byte(v)}
+		switch i % 5 {
+		case 1:
+			k = append(k, 0)
+		case 3:
+			k = append(k, "suffix-"...)
+			k = append(k, byte(i))
+		}
+		keys[i] = string(k)
+	}
+	return keys
+}
+
 type Case struct {
+	Big     *BigKeys   `json:"big,omitempty"`
 	Keys    []vk.Hex   `json:"keys"`
 	Sorted  bool       `json:"sorted"`            // strictly ascending: CountPrefixes is in domain
 	Queries [][3]int32 `json:"queries,omitempty"` // (s, e, m) for key sets larger than allRangesUpTo
@@ -30,7 +57,7 @@ var checker = &vk.Checker[Case]{
 	ID: "C16",
 	Rule: "key sets built from a random prefix tree (deep shared prefixes across the 8- and 16-byte chunk boundaries, a key that is a prefix of its successor, NUL suffix families a/a\\0/a\\0\\0, empty key, bytes >= 0x80), sorted and de-duplicated; FirstDiffBits also on unsorted lists and single keys; " +
 		"CountPrefixes(s,e,m) on strictly ascending sets: ALL sub-ranges with e-s>=2 when n<=8 (thorough n<=12; sampled otherwise) x m in {1,2,3,8,9,17,64} and, on three sub-ranges per case and on all sampled ones, m = total bits+5. Oracle: first differing bit by a bit loop; m0 = min over adjacent pairs in range; counter i = size of the set of (m0+i)-bit truncations compared as plain bit strings (bits+length), a shorter key counting as itself. " +
-		"Grid: all sorted subsets (size 2..5) of a 14-key pool. Non-trivial: >= 3 keys sharing >= 1 byte of prefix and (a key that is a prefix of its successor, or a common prefix > 8 bytes, or a NUL-suffix pair). Distinct by hash of the case.",
+		"Grid: all sorted subsets (size 2..5) of a 14-key pool; three very large key sets (70 001, 2^18+7 and 2^19+9 keys: every adjacent pair, sub-ranges around every power-of-two index). Non-trivial: >= 3 keys sharing >= 1 byte of prefix and (a key that is a prefix of its successor, or a common prefix > 8 bytes, or a NUL-suffix pair). Distinct by hash of the case.",
 	Check:    check,
 	Classify: classify,
 }
@@ -74,6 +101,23 @@ func wantCount(keys []string, s, e, m int) (int32, []int32) {
 		}
 	}
 	out := make([]int32, m)
+	if e-s > 64 {
+		// large ranges: a set of (length, truncated bytes) instead of the quadratic pairwise comparison
+		for i := 0; i < m; i++ {
+			k := int(m0) + i
+			set := make(map[string]struct{}, e-s)
+			for _, key := range keys[s:e] {
+				l := min(k, 8*len(key))
+				b := []byte(key[:(l+7)/8])
+				if l%8 != 0 {
+					b[len(b)-1] &= 0xff << uint(8-l%8)
+				}
+				set[string(append(b, byte(l), byte(l>>8), byte(l>>16)))] = struct{}{}
+			}
+			out[i] = int32(len(set))
+		}
+		return m0, out
+	}
 	for i := 0; i < m; i++ {
 		k := int(m0) + i
 		cnt := 0
@@ -129,9 +173,16 @@ func checkCountAgainst(sb *sigbits.SigBits, keys []string, s, e, m int, wm int32
 	return nil
 }
 
+func (c Case) keyStrings() []string {
+	if c.Big != nil {
+		return c.Big.expand()
+	}
+	return vk.Strings(c.Keys)
+}
+
 func check(c Case) *vk.Failure {
-	keys := vk.Strings(c.Keys)
-	orig := vk.Strings(c.Keys)
+	keys := c.keyStrings()
+	orig := c.keyStrings()
 	var ds []int32
 	if f := vk.Try(fmt.Sprintf("FirstDiffBits(%x)", keys), func() { ds = sigbits.FirstDiffBits(keys) }); f != nil {
 		return f
@@ -191,6 +242,9 @@ func check(c Case) *vk.Failure {
 }
 
 func classify(c Case) (bool, []string) {
+	if c.Big != nil {
+		return true, []string{"class:very-large-key-set"}
+	}
 	keys := vk.Strings(c.Keys)
 	labels := []string{}
 	if c.Class != "" {
@@ -336,6 +390,22 @@ func TestGrid(t *testing.T) {
 			continue
 		}
 		checker.Run(t, Case{Keys: vk.HexStrings(keys), Sorted: true, Class: "grid"})
+	}
+	// very large key sets (size thresholds of any batched / parallel implementation): every adjacent
+	// pair is compared; CountPrefixes on sub-ranges around every power-of-two index and on keyed ones
+	for _, spec := range []BigKeys{{N: 1<<18 + 7, Stride: 3}, {N: 1<<19 + 9, Stride: 1}, {N: 70001, Stride: 11}} {
+		spec := spec
+		c := Case{Big: &spec, Sorted: true, Class: "very-large-key-set"}
+		for k := uint(8); 1<<k < spec.N; k++ {
+			at := int32(1 << k)
+			c.Queries = append(c.Queries, [3]int32{at - 3, at + 4, 12}, [3]int32{at - 1, at + 1, 3}, [3]int32{at - 300, at + 200, 40})
+		}
+		for i := 0; i < 40; i++ {
+			s := int32(vk.Mix(uint64(i)+uint64(spec.N)) % uint64(spec.N-1000))
+			c.Queries = append(c.Queries, [3]int32{s, s + 2 + int32(vk.Mix(uint64(i))%900), 24})
+		}
+		c.Queries = append(c.Queries, [3]int32{0, int32(spec.N), 2})
+		checker.Run(t, c)
 	}
 	vk.MarkExhaustive("all sorted subsets of size 2..5 of a 14-key pool x all sub-ranges x 8 values of m")
 }
